@@ -147,6 +147,14 @@ func evalC01(c c01Case, o *Obs) error {
 		return fmt.Errorf("%s on %s, payload %x: EncodeAddress() = %q, specification prescribes %q", name,
 			nets[c.Net].Name, []byte(c.Payload), enc, wantStr)
 	}
+	// another address is created and encoded in between; the first one keeps its encoding
+	if ob, err := bchutil.NewAddressScriptHashFromHash(bytes.Repeat([]byte{0x5c}, 20), nets[(c.Net+1)%len(nets)].Params); err == nil {
+		ob.EncodeAddress()
+		bchutil.DecodeAddress(ob.EncodeAddress(), nets[(c.Net+1)%len(nets)].Params)
+	}
+	if again := a.EncodeAddress(); again != enc {
+		return fmt.Errorf("%s on %s: EncodeAddress() returns %q, then %q", name, nets[c.Net].Name, enc, again)
+	}
 	isPub := c.Kind >= akPubCompressed
 	str := a.String()
 	var renderings []string
